@@ -90,7 +90,7 @@ void run_entry(const gen::GGraph &gg, const Json &cs, sim::Chooser &ch, RunResul
         s.begin_run(&ch, 3000000);
         try { ret = call_entry(entry, b.g, wm, k, std::back_inserter(cycles)); }
         catch (const sim::SimAbort &) { aborted = true; }
-        catch (const std::runtime_error &) { threw = true; }
+        catch (const std::exception &) { threw = true; }
         std::string why = s.abort_reason;
         s.end_run();
         collect_tbb(r, proc);
@@ -100,7 +100,7 @@ void run_entry(const gen::GGraph &gg, const Json &cs, sim::Chooser &ch, RunResul
             std::vector<std::vector<int>> ids = cycles_to_ids(cycles, b, foreign, stale);
             add_cycle_events(ch, ids);
             if (approx && k == 0) v.k0(threw, ids.size());
-            else if (threw) r.fail("unexpected_exception", "entry point threw std::runtime_error");
+            else if (threw) r.fail("unexpected_exception", "entry point threw on a valid input");
             else v.judge(ids, foreign, stale, (double) ret, approx, k);
             ch.log.add((uint64_t) (int64_t) std::llround(std::ldexp((double) ret, 20)));
         }
@@ -160,6 +160,7 @@ void run_knob(const gen::GGraph &gg, const Json &cs, sim::Chooser &ch, RunResult
             }
         }
     } catch (const sim::SimAbort &) { aborted = true; }
+    catch (const std::exception &ex) { r.fail("unexpected_exception", std::string("a library call threw on a valid input: ") + ex.what()); }
     s.end_run();
     if (aborted) r.fail("budget", "aborted");
     r.nontrivial = distinct_n >= 2;
@@ -235,7 +236,7 @@ public:
         else run_entry<GraphD>(gg, c2, ch, r);
         if (c07) {
             std::vector<std::string> keep;
-            for (auto &c : r.classes) if (c == "stale_descriptor") keep.push_back(c);
+            for (auto &c : r.classes) if (c == "stale_descriptor" || c == "unexpected_exception") keep.push_back(c);
             r.classes = keep;
         }
     }
